@@ -281,6 +281,15 @@ def _on_alarm(signum, frame):
 
 def guarded(fn, seconds=8):
     """run fn() under a wall-clock alarm; returns ('ok', value) | ('err', name) | ('timeout', None)"""
+    try:
+        return _guarded(fn, seconds)
+    except _Alarm:
+        # the alarm went off between the end of fn() and its cancellation (or inside an exception handler): a timeout
+        signal.alarm(0)
+        return "timeout", None
+
+
+def _guarded(fn, seconds):
     old = signal.signal(signal.SIGALRM, _on_alarm)
     signal.alarm(seconds)
     try:
